@@ -15,7 +15,7 @@ def run(tier):
     nob = C.run_tlaps('Tensor_proofs', deps=('Tensor',))
     chk.layer('S.proofs', tlaps_obligations_proved=nob,
               note='Tensor_proofs.tla: cross product antisymmetric and orthogonal to both factors, Lagrange identity, cyclic triple product, dot symmetric, '
-                   'planar embedding, transpose involutive, trace of a dyadic product, symmetric embedding round trip, det(A^T) = det(A) — for ALL integer '
+                   'planar embedding, transpose involutive, trace of a dyadic product, symmetric embedding round trip, det(A^T) = det(A), and the adjugate law A.adj(A) = adj(A).A = det(A) I (the division-free statement of the inverse) — for ALL integer '
                    'components (tlapm; polynomial identities as scalar lemmas by SMT, lifted to the operators of Tensor.tla)')
     exe = C.compile_cxx('shapes', [os.path.join(C.HARNESS, 'shapes.cpp')], flags=['-std=c++17', '-O1', '-fno-fast-math', '-ffp-contract=off', '-w'], libs=['-lquadmath'])
     wd = C.work_dir('c09')
